@@ -80,7 +80,7 @@ func (storer *commandStorer) convertAndAddCommand(commandID string, command any)
 
 func newYarnSpinnerCommand(command any) (YarnSpinnerCommand, error) {
 	commandType := reflect.TypeOf(command)
-	if commandType.Kind() != reflect.Func {
+	if commandType == nil || commandType.Kind() != reflect.Func || reflect.ValueOf(command).IsNil() {
 		return nil, fmt.Errorf("newYarnSpinnerCommand expects an argument which is a function")
 	}
 
